@@ -689,6 +689,10 @@ def run(repo, outdir):
         "replyhStages": ("radsecproxy.c", "replyh", ["buf2radmsg", "dorewrite", "checkttl", "msmppe", "pwdrecrypt", "resizeattr", "ensuremsgauthfront",
                                                      "addttlattr", "sendreply", "freerqoutdata", "fticks_log", "replylog"]),
         "dorewriteStages": ("rewrite.c", "dorewrite", ["dorewriterm", "dorewritemod", "dorewritesup", "dorewriteadd"]),
+        # C17: what replyh does to the slot and the reply, and where it takes and gives up locks (the model treats the hand-over of an
+        # accepted reply - slot released, reply queued - as one step that a client's removal cannot fall into: it holds the slot's
+        # lock, which removeclientrq needs, until the reply is queued)
+        "replyhLocking": ("radsecproxy.c", "replyh", ["pthread_mutex_lock", "pthread_mutex_unlock", "sendreply", "freerqoutdata"]),
         # C14: which lookups attribute an accepted TLS / DTLS connection to a client block (every one of them takes the peer's address)
         "tlsAttribution": ("tls.c", "tlsservernew", ["find_clconf", "find_clconf_type", "find_all_clconf", "find_srvconf", "verifytlscert", "verifyconfcert", "addclient"]),
         "dtlsAttribution": ("dtls.c", "dtlsservernew", ["find_clconf", "find_clconf_type", "find_all_clconf", "find_srvconf", "verifytlscert", "verifyconfcert", "addclient"]),
